@@ -126,7 +126,8 @@ def gen_encode_cases(rng, count, thorough, tag):
             npk = r.range(1, 12 if thorough else 6)
             batch = gen_batch(r, maxb, npk, huge_ok=False)
         minb = pick_min(r, maxb, batch)
-        api = r.choice(['ENC', 'ENC', 'ENCP']) if len(batch) != 1 else r.choice(['ENC', 'ENC1', 'ENCP'])
+        # the batch may be handed over as any forward range: vector, vector of shared_ptr, list, deque, reverse iterators
+        api = r.choice(['ENC', 'ENC', 'ENCP', 'ENCL', 'ENCD', 'ENCR']) if len(batch) != 1 else r.choice(['ENC', 'ENC1', 'ENCP', 'ENCL'])
         dv, st_ = r.below(65536), r.below(256)
         k = r.below(12)
         if k == 0: dv = None
@@ -213,6 +214,18 @@ def inplace_edit_cases(rng, tag, n):
         c = enc_case('%s%d' % (tag, i), r.below(65536), r.below(256), [a for a, _ in batch], r.choice([0, 0, 64]), maxb, edits=edits)
         c.meta['batch'] = [b for _, b in batch]      # what the judges expect on the wire: the edited packets
         cases.append(c)
+    return cases
+
+def container_cases(rng, tag, n):
+    """many small packets handed over as a deque (crossing its internal blocks), a list, reverse iterators"""
+    cases = []
+    for i in range(n):
+        r = rng.fork('%s%d' % (tag, i))
+        maxb = r.choice([64, 100, 256])
+        ver = r.range(1, 255)
+        npk = r.choice([17, 20, 33, 40])
+        batch = [plain_packet(r, ver, r.choice([1, 4, 8, 3 * maxb]) if j % 7 == 3 else r.choice([1, 4, 8]), r.choice([1, 1, 3])) for j in range(npk)]
+        cases.append(enc_case('%s%d' % (tag, i), r.below(65536), r.below(256), batch, 0, maxb, r.choice(['ENCD', 'ENCD', 'ENCL', 'ENCR'])))
     return cases
 
 def small_scope_cases(tag, nmax=3):
